@@ -240,11 +240,15 @@ func (s *System) removeFuture(agentRef *AgentRef) {
 }
 
 func (s *System) removeFuturesByAgentPath(agentPath vivid.ActorPath, err error) {
+	// 在锁内复制路径列表：内层 map 会被其他协程上的 removeFuture（应答、超时）并发修改，不能在锁外遍历
 	s.futureLock.Lock()
-	refs := s.futureAgents[agentPath]
+	refs := make([]vivid.ActorPath, 0, len(s.futureAgents[agentPath]))
+	for ref := range s.futureAgents[agentPath] {
+		refs = append(refs, ref)
+	}
 	s.futureLock.Unlock()
 
-	for ref := range refs {
+	for _, ref := range refs {
 		if ctx, ok := s.actorContexts.Load(ref); ok {
 			if f, ok := ctx.(*future.Future[vivid.Message]); ok {
 				f.Close(err)
